@@ -2,7 +2,8 @@
 # applies every seeded mutant in turn, runs the checks of the claimed properties that could see it, restores /repo
 # usage: tools/run_all_mutants.sh [props to run for each mutant, default: the mutant's own property]
 cd /verif
-export VX_NO_WITNESS=1
+# witness finders run (they arbitrate proof-step failures); one build directory is reused across the mutants and removed at the end
+[ -n "$VX_NO_WITNESS" ] || export VX_TARGET_CACHE=/var/tmp/vx_target_cache
 for d in seeded/*/; do
   m=$(basename $d)
   p=$(python3 -c "import json;print(json.load(open('$d/meta.json'))['property'])")
@@ -12,5 +13,8 @@ for d in seeded/*/; do
   i=$(echo "$out" | grep -c "^INFRA")
   o=$(echo "$out" | grep -c "^OK")
   first=$(echo "$out" | grep "failed obligation" | head -1 | sed 's/  failed obligation: //' | cut -c1-150)
-  echo "$m property=$p checks='$p $extra' violations=$v infra=$i ok=$o :: $first"
+  u=$(echo "$out" | grep -c "^UNDECIDED")
+  w=$(echo "$out" | grep "^VIOLATION" | grep -vc "no-failing-input-found")
+  echo "$m property=$p checks='$p $extra' violations=$v with_input=$w undecided=$u infra=$i ok=$o :: $first"
 done
+rm -rf /var/tmp/vx_target_cache
